@@ -456,11 +456,11 @@ def rule_d7(ctx, rule_id: str = "C08-D7") -> None:
             ctx.finding(rule_id, "BothSideReact.reverse_values_if_negative_except_Q:partial-negation", f.loc(r), "the relabelled imbalance %s is neither the given vector nor its complete negation: an entry (the charge) keeps its sign when the side is swapped, so the solver fills a vector that is not the imbalance of the reaction" % unparse(v)[:70])
 
 
-def rule_d8(ctx) -> None:
+def rule_d8(ctx, rule_id: str = "C08-D8") -> None:
     """D2-D5 decide that the completions of SyntheticRuleMatcher.match add up exactly to the imbalance it was built
     with.  That carries over to the stage only if the matcher is the *only* source of completions: the variable that
     single_impute reads the completion from is bound by `matcher.match()` and by nothing else that computes."""
-    ctx.rule("C08-D8", "the completion used by single_impute comes from SyntheticRuleMatcher.match() only", 1)
+    ctx.rule(rule_id, "the completion used by single_impute comes from SyntheticRuleMatcher.match() only", 1)
     f = ctx.prog.func("synrbl.SynRuleImputer.synthetic_rule_imputer.SyntheticRuleImputer.single_impute")
     sols = set()
     for n in own_nodes(f.node):
@@ -472,9 +472,9 @@ def rule_d8(ctx) -> None:
             is_match = isinstance(v, ast.Call) and isinstance(v.func, ast.Attribute) and v.func.attr == "match"
             is_empty = (isinstance(v, (ast.List, ast.Tuple)) and not v.elts) or (isinstance(v, ast.Constant) and v.value is None)
             ok = i is None and (is_match or is_empty)
-            ctx.instance("C08-D8", "single_impute: %s = %s" % (nm, unparse(v)[:60]), f.loc(st_), ok=ok)
+            ctx.instance(rule_id, "single_impute: %s = %s" % (nm, unparse(v)[:60]), f.loc(st_), ok=ok)
             if not ok:
-                ctx.finding("C08-D8", "SyntheticRuleImputer.single_impute:second-solver", f.loc(st_), "the completion %s is also computed by %s, not by SyntheticRuleMatcher.match(): the exactness argument (D2-D5, charge included) covers the matcher only" % (nm, unparse(v)[:60]))
+                ctx.finding(rule_id, "SyntheticRuleImputer.single_impute:second-solver", f.loc(st_), "the completion %s is also computed by %s, not by SyntheticRuleMatcher.match(): the exactness argument (D2-D5, charge included) covers the matcher only" % (nm, unparse(v)[:60]))
 
 
 def rule_d9(ctx) -> None:
